@@ -64,8 +64,13 @@ FirstDiff(a, b) ==
            D == {i \in 1..m : a[i] # b[i]}
        IN IF D = {} THEN -1 ELSE (CHOOSE i \in D : \A j \in D : i <= j) - 1
 
-\* flatten a sequence of byte strings
-Flat(ss) == FoldLeft(LAMBDA acc, x : acc \o x, <<>>, ss)
+\* flatten a sequence of byte strings (divide and conquer: a left fold copies the accumulator once per element,
+\* which is quadratic for the thousands of entries of the long histories)
+RECURSIVE Flat(_)
+Flat(ss) == IF Len(ss) <= 4 THEN FoldLeft(LAMBDA acc, x : acc \o x, <<>>, ss)
+            ELSE LET h == Len(ss) \div 2 IN Flat(SubSeq(ss, 1, h)) \o Flat(SubSeq(ss, h + 1, Len(ss)))
+\* the same when every element has width w (linear instead of quadratic: lists of 65 536 handles occur in C18)
+FlatW(ss, w) == [i \in 1..(w * Len(ss)) |-> ss[((i - 1) \div w) + 1][((i - 1) % w) + 1]]
 
 \* bit sets <-> little-endian flag fields: bits is a set of bit numbers
 BitsLE(bits, w) ==
